@@ -301,3 +301,40 @@ def rule_D6_paths(tree: Tree) -> RuleResult:
                               f"--{name} defaults to the cwd-relative path {d!r}: what is read when the option is omitted depends on the working directory", main.line(o["_node"])))
     r.notes.append("--infile / --outfile name the capture and the result themselves and are excluded (the capture is an explicit input of the property)")
     return r
+
+
+def _kind(e: ast.AST):
+    if isinstance(e, (ast.List, ast.ListComp)) or (isinstance(e, ast.Call) and dotted(e.func) == "list"):
+        return "list"
+    if isinstance(e, (ast.Set, ast.SetComp)) or (isinstance(e, ast.Call) and dotted(e.func) in ("set", "frozenset")):
+        return "set"
+    if isinstance(e, (ast.Dict, ast.DictComp)) or (isinstance(e, ast.Call) and dotted(e.func) == "dict"):
+        return "dict"
+    if isinstance(e, ast.Constant) and isinstance(e.value, (bytes, str, int, bool)) and e.value is not None:
+        return type(e.value).__name__
+    return None
+
+
+def rule_attr_kinds(tree: Tree) -> RuleResult:
+    r = RuleResult("KIND", "every instance attribute of a flow class keeps one container kind on all assignments reachable from run() (a set re-created as a list breaks `|`, `.add`)")
+    cg = CallGraph.of(tree)
+    reach = cg.reachable([tree.func("main", "run")])
+    for mod, cn in FLOW_CLASSES:
+        c = tree.cls(mod, cn)
+        kinds: Dict[str, Dict[str, List[str]]] = {}
+        for f in c.methods.values():
+            if f not in reach and f.name != "__init__":
+                continue
+            for n in body_walk(f.node):
+                if isinstance(n, (ast.Assign, ast.AnnAssign)) and getattr(n, "value", None) is not None:
+                    for t in (n.targets if isinstance(n, ast.Assign) else [n.target]):
+                        if isinstance(t, ast.Attribute) and dotted(t.value) == "self":
+                            k = _kind(n.value)
+                            if k in ("list", "set", "dict"):
+                                kinds.setdefault(t.attr, {}).setdefault(k, []).append(f.qualname)
+        r.instances += 1
+        bad = {a: k for a, k in kinds.items() if len(k) > 1}
+        r.ob(not bad, Finding("KIND", f"{mod}:{cn}:attribute-kinds",
+                              f"{cn}: {[(a, {k: v for k, v in ks.items()}) for a, ks in bad.items()][:2]} — the same attribute is (re)created with different container kinds on paths reachable from run(); "
+                              f"code written for one kind (set union, membership add) raises on the other and the flow's later packets are dropped", c.module.relpath))
+    return r
